@@ -314,12 +314,13 @@ def cases(tier):
                 parts = _partitions(n, 3)
                 if not th and n == 4:
                     parts = [p for p in parts if max(p) <= 1] + [(0, 1, 2, 2), (2, 0, 1, 0), (1, 1, 2, 0)]
-                if cov and not th and n == 4:
-                    parts = parts[:6]
+                if cov and not th:
+                    # symbolic Cholesky of a dense 2x2 covariance is expensive: a representative set in the quick tier
+                    parts = {2: [(0, 0), (0, 1)], 3: [(0, 0, 0), (0, 0, 1), (0, 1, 0), (0, 1, 2), (1, 0, 0)], 4: [(0, 0, 1, 1), (0, 1, 2, 2)]}[n]
                 probs = [("variance", {"n": n, "dim": dim, "assign": p, "cov": cov}) for p in parts]
-                # split into groups of 8 partitions per worker
-                for g in range(0, len(probs), 8):
-                    out.append(Case(f"{'cov' if cov else 'var'}/dim{dim}/n{n}/g{g // 8}", run_group, {"probs": probs[g:g + 8]}, timeout_s=1500))
+                per = 1 if cov else 8
+                for g in range(0, len(probs), per):
+                    out.append(Case(f"{'cov' if cov else 'var'}/dim{dim}/n{n}/g{g // per}", run_group, {"probs": probs[g:g + per]}, timeout_s=1500))
         out.append(Case(f"{'cov' if cov else 'var'}/too_few", run_group, {"probs": [("too_few", {"cov": cov})]}, timeout_s=300))
     out.append(Case("search", case_search, {"max_iters": 6 if th else 5}, timeout_s=900))
     return out
